@@ -1771,12 +1771,25 @@ class unyt_array(np.ndarray):
         """
         return np.ones_like(self)
 
+    def _wrap_0d(self, ret):
+        # results of shape () are always handed out as unyt_quantity
+        if getattr(ret, "shape", None) == () and not isinstance(ret, unyt_quantity):
+            ret = unyt_quantity(ret, bypass_validation=True, name=self.name)
+            ret.units = self.units
+        return ret
+
     def __getitem__(self, item):
         ret = super().__getitem__(item)
         if getattr(ret, "shape", None) == ():
             ret = unyt_quantity(ret, bypass_validation=True, name=self.name)
             ret.units = self.units
         return ret
+
+    def squeeze(self, axis=None):
+        return self._wrap_0d(super().squeeze(axis=axis))
+
+    def reshape(self, *shape, **kwargs):
+        return self._wrap_0d(super().reshape(*shape, **kwargs))
 
     def __setitem__(self, item, value):
         if isinstance(value, (list, tuple)):
